@@ -45,9 +45,12 @@ func transportHeader(k string) bool {
 // StartHTTP launches a target answering 200 {"result":"ok",…} (with an Authorization header) to
 // everything, except that a request whose URI contains "nok" is answered 200 {"result":"bad"} —
 // the lever the cases use to make an assert/response postprocessor fail on a delivered response.
-func StartHTTP() (*HTTPSrv, error) {
+func StartHTTP() (*HTTPSrv, error) { return StartHTTPAt("127.0.0.1:0") }
+
+// StartHTTPAt: the same on a given address (a target that comes up after the configuration was read).
+func StartHTTPAt(addr string) (*HTTPSrv, error) {
 	s := &HTTPSrv{Record: true}
-	l, err := net.Listen("tcp", "127.0.0.1:0")
+	l, err := net.Listen("tcp", addr)
 	if err != nil {
 		return nil, err
 	}
